@@ -10,6 +10,7 @@ One whole history per line:  `imm <readonly 0|1> <reserved> op op …`  with
   `K:conn`          the connection is lost (its canary fires the registered watchers) → `ok`
         → `a=<already sorted>|w=<shnum>.<wid>,…`  or  `NoSpace` / `StructError`
   `W:wid:off:hex`   bw.write   → `ok.T|ok.F|conflict|toolarge|valueerror|closed` `/` ranges after
+  `H:wid:off:hex`   HTTP PATCH: bw.write, then bw.close as soon as write answers finished → `created|ok|conflict|…` `/` ranges
   `C:wid`           bw.close   → `ok|closed`
   `X:wid`           bw.abort / bw.disconnected → `ok`
   `T:dt`            clock.advance(dt) → `ok`
@@ -72,6 +73,15 @@ def stepOp (s : Server) (op : String) : Option (Server × String) :=
       | some e => showRanges e.2.1.written
       | none => "x"
     pure (r.1, s!"{showWrite r.2}/{rs}")
+  | ["H", wid, off, d] => do
+    let wid ← wid.toNat?
+    let r := httpWriteOp s wid (← off.toNat?) (← bytesOfHex d)
+    let rs := match findWid wid r.1.incoming with
+      | some e => showRanges e.2.1.written
+      | none => "x"
+    let out := match r.2 with
+      | .ok true => "created" | .ok false => "ok" | other => showWrite other
+    pure (r.1, s!"{out}/{rs}")
   | ["C", wid] => do
     let r := closeOp s (← wid.toNat?)
     pure (r.1, if r.2 then "ok" else "closed")
@@ -96,23 +106,29 @@ def runOps (s : Server) (acc : List String) : List String → Option (List Strin
 
 /-! ### `immd`: the same histories on the server with its directory tree (ImmDirs) -/
 
-def parseFOp (op : String) : Option (Option FOp) :=
+def parseFOp (s : Server) (op : String) : Option (List FOp) :=
   match op.splitOn ":" with
+  | ["H", wid, off, d] => do
+    let wid ← wid.toNat?
+    let off ← off.toNat?
+    let d ← bytesOfHex d
+    pure ([.direct (.write wid off d)] ++
+      (match (writeOp s wid off d).2 with | .ok true => [.direct (.close wid)] | _ => []))
   | ["A", si, shs, size, rec, free, order] => do
-    pure (some (.direct (.alloc (← si.toNat?) (← parseNatList shs) (← size.toNat?) (← bytesOfHex rec)
-      (← free.toNat?) (← parseNatList order))))
+    pure ([.direct (.alloc (← si.toNat?) (← parseNatList shs) (← size.toNat?) (← bytesOfHex rec)
+      (← free.toNat?) (← parseNatList order))])
   | ["A", si, shs, size, rec, free, order, conn] => do
-    pure (some (.allocConn (← conn.toNat?) (← si.toNat?) (← parseNatList shs) (← size.toNat?) (← bytesOfHex rec)
-      (← free.toNat?) (← parseNatList order)))
-  | ["K", conn] => do pure (some (.disconnect (← conn.toNat?)))
-  | ["W", wid, off, d] => do pure (some (.direct (.write (← wid.toNat?) (← off.toNat?) (← bytesOfHex d))))
-  | ["C", wid] => do pure (some (.direct (.close (← wid.toNat?))))
-  | ["X", wid] => do pure (some (.direct (.abort (← wid.toNat?))))
-  | ["T", dt] => do pure (some (.direct (.advance (← dt.toNat?))))
-  | ["R", _, _, _, _] => some none
-  | ["L", _] => some none
-  | ["S"] => some none
-  | ["D"] => some none
+    pure ([.allocConn (← conn.toNat?) (← si.toNat?) (← parseNatList shs) (← size.toNat?) (← bytesOfHex rec)
+      (← free.toNat?) (← parseNatList order)])
+  | ["K", conn] => do pure [.disconnect (← conn.toNat?)]
+  | ["W", wid, off, d] => do pure [.direct (.write (← wid.toNat?) (← off.toNat?) (← bytesOfHex d))]
+  | ["C", wid] => do pure [.direct (.close (← wid.toNat?))]
+  | ["X", wid] => do pure [.direct (.abort (← wid.toNat?))]
+  | ["T", dt] => do pure [.direct (.advance (← dt.toNat?))]
+  | ["R", _, _, _, _] => some []
+  | ["L", _] => some []
+  | ["S"] => some []
+  | ["D"] => some []
   | _ => none
 
 def showDir : Dir → String
@@ -135,11 +151,9 @@ def parsePre (t : String) : Option (Nat → Nat) := do
 def runDOps (pre : Nat → Nat) (d : DServer) (acc : List String) : List String → Option (List String)
   | [] => some acc.reverse
   | op :: rest =>
-    match stepOp d.srv op, parseFOp op with
-    | some (s', out), some fop =>
-      let d' := match fop with
-        | some f => dfstep pre d f
-        | none => d
+    match stepOp d.srv op, parseFOp d.srv op with
+    | some (s', out), some fops =>
+      let d' := dfrun pre d fops
       let same := (sortBy keyLt (d'.srv.incoming.map (·.1)) == sortBy keyLt (s'.incoming.map (·.1))) &&
                   (sortBy keyLt (d'.srv.final.map (·.1)) == sortBy keyLt (s'.final.map (·.1))) &&
                   allocatedSize d'.srv == allocatedSize s'
